@@ -368,7 +368,7 @@ func normPrefix(items []wire.Item) []wire.Item {
 func init() { register("C01", checkC01) }
 
 func checkC01(c *core.Ctx) {
-	c.Explainf("C01 (decided clause: encoder/decoder emitters are siblings). The generator's own source is folded over %s; every emitted MarshalBebopTo/EncodeBebop/UnmarshalBebop/MustUnmarshalBebop/DecodeBebop is read into a wire-op signature and the decoders are required to GET exactly what the encoders PUT (same primitives via the resolved iohelp functions, same container walk, same framing, same field set with only deprecated message fields skipped on encode). R6: Size() (hence the length prefix decoders rely on) equals what the encoders write. R8: the byte decoders step over every nested record they decode, by 4+len after a message and 5+len after a union (what the encoders put there). R7: the iohelp primitives behind the signatures move exactly their width with one Go type both ways, and ErrorReader.Read absorbs read fragmentation. NOT decided: that equal signatures imply equal values for every bit pattern (NaN payloads, time zones, nil-vs-empty) — Go semantics.", "abstract schema shapes (every leaf class x containers to the tier's depth x 32 option sets)")
+	c.Explainf("C01 (decided clause: encoder/decoder emitters are siblings). The generator's own source is folded over %s; every emitted MarshalBebopTo/EncodeBebop/UnmarshalBebop/MustUnmarshalBebop/DecodeBebop is read into a wire-op signature and the decoders are required to GET exactly what the encoders PUT (same primitives via the resolved iohelp functions, same container walk, same framing, same field set with only deprecated message fields skipped on encode). R6: Size() (hence the length prefix decoders rely on) equals what the encoders write. R8: the byte decoders step over every nested record they decode, by 4+len after a message and 5+len after a union (what the encoders put there). R7: the iohelp primitives behind the signatures move exactly their width with one Go type both ways, and ErrorReader.Read absorbs read fragmentation. R9: a count check before an array allocation demands no more bytes per element than the smallest encoding of an element occupies (0 for a field-less struct): a stricter check rejects what the encoders write. NOT decided: that equal signatures imply equal values for every bit pattern (NaN payloads, time zones, nil-vs-empty) — Go semantics.", "abstract schema shapes (every leaf class x containers to the tier's depth x 32 option sets)")
 	gr := startGen(c)
 	if gr == nil {
 		return
@@ -412,6 +412,12 @@ func checkC01(c *core.Ctx) {
 				}
 				if !bad {
 					c.Check("R8", m+" steps over what it decodes "+bodyKeyAll(rf), anchorPos(gr.p, rf.Spec.Kind, m), true, "")
+				}
+				// R9: no length check demands more than the smallest encoding holds
+				for _, f := range mf.Fails {
+					if f.Rule == "overcheck" {
+						c.Check("R9", failKey(rf, m, f), anchorPos(gr.p, rf.Spec.Kind, m), false, f.Msg+" — "+rf.where(f.Pos))
+					}
 				}
 			}
 		}
